@@ -3,16 +3,16 @@ NEXT Next
 CONSTANTS
   RxnIds <- R_All
   MaxRxns = 1
-  GridSeq <- G_Four
+  GridSeq <- G_Three
   StateModes <- M_Full
   Patterns <- P_Few
-  Extents <- X_Signed
-  Deltas <- D_Many
-  Factors <- F_Many
+  Extents <- X_Few
+  Deltas <- D_Few
+  Factors <- F_Few
   Shifts <- S_Many
   PertKinds <- K_All
   NumSyss <- N_Three
-  RrefFlags <- FL_Two
+  RrefFlags <- FL_Plain
 INVARIANT TypeOK
 INVARIANT BackwardConstructionIsEquilibrium
 INVARIANT PerturbationBreaksOneClause
